@@ -7,3 +7,6 @@ import PhyloModel.Props.C10
 #print axioms C10.dead_start_rejected
 #print axioms C10.inorder_refuses_polytomy
 #print axioms C10.only_subtree_nodes
+#print axioms C10.recursive_traversals_exact
+#print axioms C10.levelorder_exact
+#print axioms C10.fuel_suffices
